@@ -18,6 +18,10 @@ inductive NOp where
   | timeCheck (now : Int)
   | removeService (k : SKey)
   | clearEmpty (k : SKey) (now : Int)
+  /-- the apply of a committed Raft removal of a persistent record -/
+  | raftRemove (k : SKey) (short : ShortKey) (now : Int)
+  /-- another node's digest of its gRPC connections (`SyncDistroClientInstances` -> `DiffGrpcDistroData`) -/
+  | digest (data : List (String × List IKey)) (now : Int)
   deriving Repr
 
 def step (n : Naming) : NOp → Naming
@@ -27,6 +31,31 @@ def step (n : Naming) : NOp → Naming
   | .timeCheck now => n.timeCheck now
   | .removeService k => (n.removeService k).1
   | .clearEmpty k now => n.clearOneEmpty k now
+  | .raftRemove k s now => n.raftRemove k s now
+  | .digest data now => (n.diffClientData data now).1
+
+theorem inv_raftRemove (n : Naming) (k : SKey) (short : ShortKey) (now : Int) (h : Inv n) : Inv (n.raftRemove k short now) := by
+  unfold Naming.raftRemove
+  split
+  · exact h
+  · split
+    · split
+      · exact h
+      · exact inv_removeInstance n k short none now h
+    · exact inv_removeInstance n k short none now h
+
+theorem inv_diffClientData (n : Naming) (data : List (String × List IKey)) (now : Int) (h : Inv n) :
+    Inv (n.diffClientData data now).1 := by
+  unfold Naming.diffClientData
+  simp only
+  generalize (data.flatMap fun e => match AL.get? n.clientSets e.1 with
+    | some v => v.filter fun ik => !e.2.contains ik
+    | none => []) = keys
+  induction keys generalizing n with
+  | nil => exact h
+  | cons ik rest ih =>
+    simp only [List.foldl_cons]
+    exact ih _ (inv_removeInstance n ik.skey ik.short none now h)
 
 def run (n : Naming) (ops : List NOp) : Naming := ops.foldl step n
 
@@ -44,6 +73,8 @@ theorem inv_step (n : Naming) (op : NOp) (h : Inv n) (hop : match op with | .upd
   | timeCheck now => exact inv_timeCheck n now h
   | removeService k => exact inv_removeService n k h
   | clearEmpty k now => exact inv_clearOneEmpty n k now h
+  | raftRemove k s now => exact inv_raftRemove n k s now h
+  | digest data now => exact inv_diffClientData n data now h
 
 /-- **the bookkeeping invariant holds at every moment** -/
 theorem inv_reachable (ops : List NOp) (hok : OpsOK ops) : Inv (run {} ops) := by
